@@ -254,6 +254,10 @@ pub fn run(cfg: &Config, s: &mut Session, rng: &mut Rng) {
         Scenario { name: "fixed:1500x(2 pairs)", firsts: (0..1500).collect(), sets: (0..1500).map(|i| (i + 1, 10)).collect() },
         Scenario { name: "fixed:two-huge-first-at-0-fmt2", firsts: vec![10, 11, 12, 13, 14, 15, 16], sets: vec![(1, 16400), (2, 16400), (3, 5), (4, 5), (5, 5), (6, 5), (7, 5)] },
         Scenario { name: "fixed:two-huge-first-at-0-fmt1", firsts: vec![10, 12, 14], sets: vec![(1, 16400), (2, 16400), (3, 5)] },
+        // 181 pair sets of 89 records fill a subtable to exactly 65536 bytes by the heuristic's count
+        // (10 + 181*360 + 4 + 2*181), in the first subtable and - through `partial_coverage_size = 6`
+        // after a split - in every following one: the split points are 180, 360, 540
+        Scenario { name: "fixed:exact-boundary-181x89", firsts: (0..600).map(|i| 2 * i + 7).collect(), sets: (0..600).map(|i| (i + 1, 89)).collect() },
         Scenario { name: "fixed:sparse", firsts: (0..400).map(|i| 3 * i + 1).collect(), sets: (0..400).map(|i| (i + 1, 60)).collect() },
     ];
     for sc in &fixed {
